@@ -709,6 +709,35 @@ def run(ctx):
     ctx.cov["sweep_bound"] = ("every expression with a leaf of the form atom, -atom, atom op atom, -(atom op atom), x op y with x, y of "
                               "these forms (quick: one of x, y an atom) over atoms {leaf, power-of-two leaf, 3/2, 2}, size 2")
 
+    # ---- 1b. shared sub-expression OBJECTS: s = a op b is built once and used in two parents; building the
+    # first parent must not change what the second parent (or s itself) evaluates to ----
+    n_dag = 0
+    for k in range(60 if quick else 600):
+        e0 = gen_expr(rng, rng.randint(1, 2))
+        if not leaves(e0) or e0[0] in ("L", "K"):
+            continue
+        e1 = gen_expr(rng, rng.randint(0, 1))
+        e2 = gen_expr(rng, rng.randint(0, 1))
+        op1, op2 = rng.choice(["+", "-", "*"]), rng.choice(["+", "-", "*"])
+        m = 1 + k % 3
+        try:
+            shared = build(e0, world.leaf)
+            first = BINOPS[op1](shared, build(e1, world.leaf))            # noqa: F841 (built for its side effects, if any)
+            second = BINOPS[op2](shared, build(e2, world.leaf)) if k % 2 else BINOPS[op2](build(e2, world.leaf), shared)
+        except Exception as ex:  # noqa
+            hard.append((e0, m, {}, ("raised", f"building two parents of one sub-expression object raised {type(ex).__name__}: {ex}")))
+            break
+        for obj, e in ((second, (op2, e0, e2) if k % 2 else (op2, e2, e0)), (shared, e0)):
+            plan = make_plan(rng, e, m)
+            if not exact_on_plan(e, plan, m):
+                continue
+            out, rec = world.observe(plan, m, lambda o=obj: o.rvs(m))
+            f = oracle_expr(e, m, out, rec)
+            n_dag += 1
+            if f is not None:
+                hard.append((e, m, plan, (f[0], f"sub-expression object {show(e0)} shared by two parents (first parent: {show((op1, e0, e1))}): " + f[1])))
+    ctx.cov["shared_subexpression_cases"] = n_dag
+
     # ---- 2. random trees: oracle + correspondence ----
     n_random = 300 if quick else 5000
     cases = []
